@@ -10,6 +10,7 @@ import numpy as np
 from nssverif import use_repo, par, rng as rngmod
 from nssverif.f64 import bits, bits_array
 from nssverif.kit import PropertyRun
+from nssverif.bufs import Reuse
 from nssverif.pipeline import make_config
 
 
@@ -101,12 +102,14 @@ def shower_job(job):
     radio = EASRadio(cfg)
     c = job["c"]
 
+    buf = Reuse()      # the three evaluations hand the stage the SAME argument array objects, refilled
+
     def fields(E, order=None):
         a = [beta, alt, ln, theta, path, E]
         if order is not None:
             a = [x[order] for x in a]
         with rngmod.constant(c):
-            return np.asarray(radio(*[x.copy() for x in a]), dtype=float)
+            return np.asarray(radio(*[buf(str(j), x) for j, x in enumerate(a)]), dtype=float)
     ef1, ef3 = fields(Esh), fields(3.0 * Esh)
     order = rng.permutation(n)
     efp = fields(Esh, order)
